@@ -9,7 +9,7 @@ DRIVER = dev_ctl.DRIVER
 REQUIRED_THEOREMS = ["unsupported_never_answered", "unsupported_first_request_stalled", "unsupported_setup_establishes_handling", "handling_step",
                      "unhandled_stalls", "unhandled_waits_silently", "unclaimed_request_stalls", "cycle_refines_event",
                      "cycle_refines_event_run"]
-RULE = dev_ctl.RULE + dev_ctl.CYC_RULE
+RULE = dev_ctl.RULE + dev_ctl.CYC_RULE + c07.RULE_SYS
 ASSUMPTIONS = dev_ctl.ASSUMPTIONS
 PARTIAL = c07.PARTIAL_STREAMS + dev_ctl.PARTIAL["C10"][len(dev_ctl.PARTIAL_COMMON):]
 
